@@ -83,9 +83,7 @@ var (
 			return math.Pow(f, 3)
 		}),
 		LinearisationSqrt: LineariserFunc(math.Sqrt),
-		LinearisationCubeRt: LineariserFunc(func(f float64) float64 {
-			return math.Pow(f, 1./3)
-		}),
+		LinearisationCubeRt: LineariserFunc(math.Cbrt),
 	}
 )
 
